@@ -267,10 +267,10 @@ func (ps *PathSum) val(f *psFrame, v ssa.Value) string {
 		return t
 	}
 	if p, ok := v.(*ssa.Parameter); ok {
-		return "param:" + p.Name()
+		return "param:" + pname(p)
 	}
 	if fv, ok := v.(*ssa.FreeVar); ok {
-		return "freevar:" + fv.Name()
+		return "freevar:" + fvname(fv)
 	}
 	return "unk:" + v.Name()
 }
@@ -480,15 +480,15 @@ func (ps *PathSum) newFrame(fn *ssa.Function, args, binds []string, kind string,
 func (ps *PathSum) Run(fn *ssa.Function, presetArgs map[string]string) []*psOutcome {
 	var args []string
 	for _, p := range fn.Params {
-		a := "param:" + p.Name()
-		if v, ok := presetArgs[p.Name()]; ok {
+		a := "param:" + pname(p)
+		if v, ok := presetArgs[pname(p)]; ok {
 			a = v
 		}
 		args = append(args, a)
 	}
 	var binds []string
 	for _, fv := range fn.FreeVars {
-		binds = append(binds, "freevar:"+fv.Name())
+		binds = append(binds, "freevar:"+fvname(fv))
 	}
 	s := &psState{cells: map[string]string{}, preds: map[string]bool{}}
 	outs := ps.exec(s, ps.newFrame(fn, args, binds, "entry", nil))
@@ -793,7 +793,7 @@ func fieldNameOf(t types.Type, i int) string {
 	if st == nil || i >= st.NumFields() {
 		return "?"
 	}
-	return st.Field(i).Name()
+	return fname(st.Field(i))
 }
 
 // enter moves to block b honouring the back-edge bound.
